@@ -8,3 +8,5 @@ import TinsModel.Props.C19
 #print axioms Tins.Props.C19.interval_set_semantics
 #print axioms Tins.Props.C19.oracle_is_definition
 #print axioms Tins.Props.C19.receiver_histories_conform
+#print axioms Tins.Props.C19.intervals_are_the_maximal_runs
+#print axioms Tins.Props.C19.intervals_always_canonical
